@@ -89,6 +89,7 @@ func runC04() {
 	if run.Thorough() {
 		nShapes = 30000
 	}
+	nShapes = scaled(nShapes)
 	kinds := []string{"split", "EpochNotMatch", "NotLeader", "ServerIsBusy", "StaleCommand"}
 	for n := 0; n < nShapes; n++ {
 		r := rnd.Fork()
